@@ -1127,10 +1127,20 @@ def run(ctx, only=None):
 
 
 def replay(ctx, case):
-    """Re-run one stored case (stream, index, seed) on the implementation and the model."""
-    if not isinstance(case, dict) or 'stream' not in case:
+    """Re-run one stored case (stream, index, seed) on the implementation only; returns the oracle failures of that case, or
+    None when it passes on the current tree.  The model is switched off: a replay does not regenerate / rebuild the Lean
+    side, so model answers could stem from another tree and say nothing about whether the stored input still fails."""
+    if not isinstance(case, dict) or 'stream' not in case or 'index' not in case or case['stream'] not in STREAMS:
         return None
     sub = type(ctx)(ctx.prop, ctx.tier, int(case.get('seed', ctx.seed)), 1, ctx.driver)
-    run(sub, only=(case['stream'], int(case['index'])))
-    out = sub.failures[:3] + [{'disagreement': d} for d in sub.disagreements[:3]]
-    return out or None
+    sub.model_available = False          # implementation side only
+    import contextlib
+    import io as _io
+    with contextlib.redirect_stdout(_io.StringIO()), contextlib.redirect_stderr(_io.StringIO()):
+        run(sub, only=(case['stream'], int(case['index'])))
+
+    def key(c):
+        return (c.get('stream'), c.get('index'), c.get('seed')) if isinstance(c, dict) else None
+    want = (case['stream'], int(case['index']), int(case.get('seed', ctx.seed)))
+    hits = [f for f in sub.failures if key(f['case']) == want]
+    return hits[:3] or None
